@@ -2,6 +2,8 @@ package importcache
 
 import (
 	"context"
+	"fmt"
+	"strings"
 	"sync"
 
 	"github.com/arr-ai/arrai/rel"
@@ -9,7 +11,17 @@ import (
 
 type importCacheKeyType int
 
-const importCacheKey importCacheKeyType = iota
+const (
+	importCacheKey importCacheKeyType = iota
+	importChainKey
+)
+
+// importChain is the immutable list of keys whose values are being computed by
+// the chain of calls that led to the current one (innermost first).
+type importChain struct {
+	key    string
+	parent *importChain
+}
 
 // it is a simple cache component used by import behavior, and it can make cache code simple
 type importCache struct {
@@ -38,6 +50,40 @@ func GetOrAddFromCache(ctx context.Context, key string, add func() (rel.Expr, er
 	panic("GetOrAddFromCache: cache not in context")
 }
 
+// GetOrAddFromCacheCtx is like GetOrAddFromCache, but add receives a context
+// that remembers that the value for key is being computed. If key is requested
+// again while computing its own value (an import cycle), an error is returned
+// instead of waiting forever for a value that can never arrive. Requests for
+// the same key from unrelated callers still wait for the value as usual.
+func GetOrAddFromCacheCtx(
+	ctx context.Context,
+	key string,
+	add func(ctx context.Context) (rel.Expr, error),
+) (rel.Expr, error) {
+	chain, _ := ctx.Value(importChainKey).(*importChain)
+	for c := chain; c != nil; c = c.parent {
+		if c.key == key {
+			return nil, importCycleError(chain, key)
+		}
+	}
+	ctx = context.WithValue(ctx, importChainKey, &importChain{key: key, parent: chain})
+	return GetOrAddFromCache(ctx, key, func() (rel.Expr, error) { return add(ctx) })
+}
+
+func importCycleError(chain *importChain, key string) error {
+	keys := []string{key}
+	for c := chain; c != nil; c = c.parent {
+		keys = append(keys, c.key)
+		if c.key == key {
+			break
+		}
+	}
+	for i, j := 0, len(keys)-1; i < j; i, j = i+1, j-1 {
+		keys[i], keys[j] = keys[j], keys[i]
+	}
+	return fmt.Errorf("import cycle not allowed: %s", strings.Join(keys, " -> "))
+}
+
 func newImportCache() *importCache {
 	c := &importCache{cache: map[string]rel.Expr{}}
 	c.cond = sync.NewCond(&c.mutex)
@@ -62,10 +108,13 @@ func (service *importCache) getOrAdd(key string, add func() (rel.Expr, error)) (
 	service.mutex.Lock()
 	defer func() {
 		if adding {
-			// If panicked trying to add, remove the key from the cache so
-			// someone else can have a go.
+			// If failed or panicked trying to add, remove the key from the
+			// cache so someone else can have a go.
 			service.mutex.Lock()
 			delete(service.cache, key)
+			// Wake up whoever is waiting for this key, otherwise they'd
+			// wait forever for a value that will never be stored.
+			service.cond.Broadcast()
 		}
 		service.mutex.Unlock()
 	}()
